@@ -1,4 +1,5 @@
 import Muxide.Lemmas.Framing
+import Muxide.Lemmas.AnnexB
 /-
   C14 — Re-framing (Annex B → length-prefixed NALs, ADTS → raw AAC) is exact.
   Property theorems only; helper lemmas live in Muxide/Lemmas/.
@@ -94,5 +95,231 @@ theorem C14_adts (f : Bytes) :
 /-- non-vacuity: a concrete protected (9-byte header) frame is valid and yields its 2 payload bytes -/
 example : adtsToRaw [0xFF, 0xF0, 0x4C, 0x80, 0x01, 0x7F, 0xFC, 0xAA, 0xBB, 0x11, 0x22, 0x99] = .ok [0x11, 0x22] := by
   simp [adtsToRaw, byteAt, adtsHeaderLen, adtsFrameLength, adtsChannelConfig]
+
+/-! ### The structural scanner and iterator against the least-index specification -/
+
+/-- The model's start-code scanner, run on the suffix at `from_`, finds exactly the least index
+    `≥ from_` at which a start code begins, with the right length (4-byte form preferred). -/
+theorem C14_scan (d : Bytes) (from_ : Nat) :
+    (findSC (d.drop from_)).map (fun (p, l) => (p + from_, l)) = firstSC d from_ := by
+  rw [firstSC_eq_firstFrom, findSC_eq_firstFrom]
+
+/-- The NAL iterator yields exactly the byte runs between the end of one start code and the
+    beginning of the next (or the end of input). -/
+theorem C14_split (d : Bytes) : nals d = splitAnnexB d := by
+  have := nalsAux_eq_splitFrom d (d.length + 1) 0
+  simpa [nals, splitAnnexB] using this
+
+/-- hence the units the model emits are the units of the specification -/
+theorem C14_modelUnits (d : Bytes) : modelUnits d = units d := by
+  simp only [modelUnits, units, C14_split]
+
+/-- every unit is a contiguous piece of the input -/
+theorem C14_units_infix (d : Bytes) : ∀ u ∈ units d, u <:+: d := by
+  intro u hu
+  simp only [units] at hu
+  split at hu
+  · simp at hu; subst hu; exact List.infix_refl _
+  · simp only [List.mem_filter] at hu
+    exact splitFrom_infix d _ _ u hu.1
+
+/-- The converted access unit parses, as 4-byte big-endian length-prefixed units, exactly to its
+    end, and the payloads are the specification's units (the non-empty runs between start codes,
+    or the whole input when there is none), in order and unmodified. -/
+theorem C14_frame (d : Bytes) (h : d.length < 2^32) :
+    parseLengthPrefixed (toAvcc d) = some (units d) := by
+  rw [← C14_modelUnits]
+  apply C14_frame_roundtrip
+  intro u hu
+  rw [C14_modelUnits] at hu
+  exact Nat.lt_of_le_of_lt (C14_units_infix d u hu).length_le h
+
+/-! ### Units joined by arbitrary start codes split back into exactly those units -/
+
+/-- a unit that can be framed by start codes without ambiguity: no start code begins anywhere
+    inside it, and it does not end in a zero byte (a trailing zero would be absorbed by a
+    following `00 00 01`, read as `00 00 00 01`). Empty units are allowed. -/
+def WellFormed (n : Bytes) : Prop := n.getLast? ≠ some 0 ∧ ∀ i, scLenAt n i = 0
+
+private theorem zip_props (cs ns : List Bytes)
+    (hcs : ∀ c ∈ cs, c = [0, 0, 1] ∨ c = [0, 0, 0, 1]) (hns : ∀ n ∈ ns, WellFormed n) :
+    ∀ q ∈ List.zip cs ns, IsSC q.1 ∧ q.2.getLast? ≠ some 0 ∧ findSC q.2 = none := by
+  intro q hq
+  obtain ⟨c, n⟩ := q
+  obtain ⟨h1, h2⟩ := List.of_mem_zip hq
+  exact ⟨hcs c h1, (hns n h2).1, (noSC_iff n).mp (hns n h2).2⟩
+
+/-- All lists of well-formed units, each preceded by an arbitrary 3- or 4-byte start code, split
+    back into exactly those units. -/
+theorem C14_construct (cs ns : List Bytes) (hlen : cs.length = ns.length)
+    (hcs : ∀ c ∈ cs, c = [0, 0, 1] ∨ c = [0, 0, 0, 1]) (hns : ∀ n ∈ ns, WellFormed n) :
+    splitAnnexB ((List.zip cs ns).flatMap (fun (c, n) => c ++ n)) = ns := by
+  have e : (List.zip cs ns).flatMap (fun (c, n) => c ++ n) = joinSC (List.zip cs ns) := rfl
+  have hj := nalsAux_join (List.zip cs ns) [] ((joinSC (List.zip cs ns)).length + 1)
+    (zip_props cs ns hcs hns) (Or.inl rfl)
+  rw [List.append_nil, nalsAux_nil, List.append_nil, List.map_snd_zip (by omega)] at hj
+  rw [← C14_split, nals, e, nalsAux_fuel _ _
+    ((List.zip cs ns).length + ((joinSC (List.zip cs ns)).length + 1)) (Nat.lt_succ_self _) (by omega), hj]
+
+/-- The same with any number of zero bytes before the first start code and after the last unit:
+    the leading zeros are skipped, the trailing zeros are appended to the last unit. The last
+    unit need only be free of start codes. -/
+theorem C14_construct_padded (z t : Nat) (cs ns : List Bytes) (c n : Bytes)
+    (hlen : cs.length = ns.length)
+    (hcs : ∀ c ∈ cs, c = [0, 0, 1] ∨ c = [0, 0, 0, 1]) (hns : ∀ n ∈ ns, WellFormed n)
+    (hc : c = [0, 0, 1] ∨ c = [0, 0, 0, 1]) (hn : ∀ i, scLenAt n i = 0) :
+    splitAnnexB (List.replicate z 0 ++ (List.zip cs ns).flatMap (fun (c, n) => c ++ n) ++ c ++ n
+        ++ List.replicate t 0) = ns ++ [n ++ List.replicate t 0] := by
+  have hm : findSC (n ++ List.replicate t 0) = none :=
+    findSC_append_zeros n t ((noSC_iff n).mp hn)
+  have hps := zip_props cs ns hcs hns
+  -- the data after the leading zeros
+  have hj := nalsAux_join (List.zip cs ns) (c ++ (n ++ List.replicate t 0))
+    ((joinSC (List.zip cs ns) ++ (c ++ (n ++ List.replicate t 0))).length + 1) hps
+    (Or.inr (by rw [IsSC.headLen hc]; have := IsSC.length hc; omega))
+  rw [nalsAux_last _ c _ hc hm, List.map_snd_zip (by omega)] at hj
+  -- it begins with a start code
+  have hhead := joinSC_append_head (List.zip cs ns) c (n ++ List.replicate t 0)
+    (fun q hq => (hps q hq).1) hc
+  obtain ⟨c0, x, hc0, hx⟩ := hhead
+  rw [← C14_split, nals]
+  have hd : List.replicate z 0 ++ (List.zip cs ns).flatMap (fun (c, n) => c ++ n) ++ c ++ n
+      ++ List.replicate t 0 = List.replicate z 0 ++ (c0 ++ x) := by
+    rw [← hx]; simp [joinSC]
+  rw [hd, nalsAux_leading_zeros _ z c0 x hc0,
+    nalsAux_fuel (c0 ++ x) _ ((List.zip cs ns).length + ((c0 ++ x).length + 1))
+      (by simp; omega) (by omega), ← hx, hj]
+
+/-- a byte string of zeros contains no unit -/
+theorem C14_zeros (z : Nat) : splitAnnexB (List.replicate z 0) = [] := by
+  rw [← C14_split, nals, nalsAux, findSC_zeros]
+
+/-- End to end: non-empty well-formed units joined by arbitrary start codes are converted to
+    exactly those units, each behind its 4-byte big-endian length. -/
+theorem C14_construct_frame (cs ns : List Bytes) (hlen : cs.length = ns.length)
+    (hcs : ∀ c ∈ cs, c = [0, 0, 1] ∨ c = [0, 0, 0, 1])
+    (hns : ∀ n ∈ ns, WellFormed n ∧ n ≠ [])
+    (hsz : ((List.zip cs ns).flatMap (fun (c, n) => c ++ n)).length < 2^32) :
+    parseLengthPrefixed (toAvcc ((List.zip cs ns).flatMap (fun (c, n) => c ++ n))) = some ns := by
+  rw [C14_frame _ hsz]
+  have hs := C14_construct cs ns hlen hcs (fun n hn => (hns n hn).1)
+  have hf : ns.filter (· ≠ []) = ns := by
+    rw [List.filter_eq_self]; intro n hn; simpa using (hns n hn).2
+  simp only [units, hs, hf]
+  split
+  · next h =>
+    obtain ⟨h1, h2⟩ := h
+    subst h1
+    simp at h2
+  · rfl
+
+/-- The fuel of the specification's split (and hence of the model's iterator) never truncates:
+    any fuel above the remaining length gives the same runs. -/
+theorem C14_split_fuel (d : Bytes) (k f1 f2 : Nat) (h1 : d.length - k < f1) (h2 : d.length - k < f2) :
+    splitFrom d f1 k = splitFrom d f2 k := by
+  rw [← nalsAux_eq_splitFrom, ← nalsAux_eq_splitFrom]
+  exact nalsAux_fuel _ _ _ (by simpa using h1) (by simpa using h2)
+
+/-- non-vacuity: concrete well-formed units (one containing `00 00 03`, one containing `00 01`) -/
+example : WellFormed [0x67, 0x00, 0x00, 0x03, 0x01] ∧ WellFormed [0x68, 0x00, 0x01, 0x80] ∧
+    WellFormed [] :=
+  ⟨⟨by simp, (noSC_iff _).mpr (by simp [findSC])⟩, ⟨by simp, (noSC_iff _).mpr (by simp [findSC])⟩,
+    ⟨by simp, (noSC_iff _).mpr (by simp [findSC])⟩⟩
+
+/-- the trailing-zero condition is needed: `[5, 0]` followed by `00 00 01` loses its last byte -/
+example : splitAnnexB ([0, 0, 1] ++ [5, 0] ++ [0, 0, 1] ++ [6]) = [[5], [6]] := by
+  simp [splitAnnexB, splitFrom, firstSC, scLenAt, List.range_succ]
+
+/-- non-vacuity of `C14_construct`: mixed 3- and 4-byte start codes -/
+example : splitAnnexB ([0, 0, 1] ++ [0x67, 0x00, 0x00, 0x03, 0x01] ++ ([0, 0, 0, 1] ++ [0x68, 0x00, 0x01, 0x80]))
+    = [[0x67, 0x00, 0x00, 0x03, 0x01], [0x68, 0x00, 0x01, 0x80]] := by
+  have := C14_construct [[0, 0, 1], [0, 0, 0, 1]] [[0x67, 0x00, 0x00, 0x03, 0x01], [0x68, 0x00, 0x01, 0x80]]
+    rfl (by simp)
+    (by
+      intro n hn
+      simp only [List.mem_cons, List.not_mem_nil, or_false] at hn
+      rcases hn with rfl | rfl
+      · exact ⟨by simp, (noSC_iff _).mpr (by simp [findSC])⟩
+      · exact ⟨by simp, (noSC_iff _).mpr (by simp [findSC])⟩)
+  simpa using this
+
+/-! ### Scanner cost (used by C12): the iterator examines at most one position per input byte -/
+
+/-- number of positions the scanner examines (calls of `findSC` on a non-empty suffix; an upper
+    bound on the iterations of the `while` loop of `find_start_code`) -/
+def scanSteps : Bytes → Nat
+  | [] => 0
+  | b :: rest =>
+    match b, rest with
+    | 0, 0 :: 0 :: 1 :: _ => 1
+    | 0, 0 :: 1 :: _ => 1
+    | _, _ => scanSteps rest + 1
+
+/-- total number of positions examined by all `find_start_code` calls of the iterator -/
+def iterSteps : Nat → Bytes → Nat
+  | 0, _ => 0
+  | fuel + 1, d =>
+    scanSteps d +
+    match findSC d with
+    | none => 0
+    | some (p, l) => scanSteps (d.drop (p + l)) + iterSteps fuel (takeNal (d.drop (p + l))).2
+
+theorem C14_scan_steps (e : Bytes) :
+    scanSteps e = match findSC e with
+      | some (p, _) => p + 1
+      | none => e.length := by
+  fun_induction findSC e
+  · simp [scanSteps]
+  · simp [scanSteps]
+  · simp [scanSteps]
+  · next b rest h1 h2 ih =>
+    rw [scanSteps.eq_4 b rest h1 h2, ih]
+    cases findSC rest with
+    | none => simp
+    | some pl => simp
+
+theorem C14_iter_steps (fuel : Nat) (d : Bytes) : iterSteps fuel d ≤ d.length := by
+  induction fuel generalizing d with
+  | zero => simp [iterSteps]
+  | succ fuel ih =>
+    rw [iterSteps, C14_scan_steps d]
+    cases h : findSC d with
+    | none => simp
+    | some pl =>
+      obtain ⟨p, l⟩ := pl
+      have hb := findSC_bound h
+      simp only
+      rw [C14_scan_steps (d.drop (p + l))]
+      have ihr := ih (takeNal (d.drop (p + l))).2
+      unfold takeNal at ihr ⊢
+      cases h2 : findSC (d.drop (p + l)) with
+      | none =>
+        rw [h2] at ihr
+        simp at ihr ⊢
+        omega
+      | some ql =>
+        obtain ⟨q, l'⟩ := ql
+        have hb2 := findSC_bound h2
+        rw [h2] at ihr
+        simp at ihr hb2 ⊢
+        omega
+
+theorem C14_nals_count (d : Bytes) : 3 * (nals d).length ≤ d.length := by
+  suffices h : ∀ fuel e, 3 * (nalsAux fuel e).length ≤ e.length from h _ _
+  intro fuel
+  induction fuel with
+  | zero => simp [nalsAux]
+  | succ fuel ih =>
+    intro e
+    rw [nalsAux]
+    cases h : findSC e with
+    | none => simp
+    | some pl =>
+      obtain ⟨p, l⟩ := pl
+      have hb := findSC_bound h
+      have ht := takeNal_snd_length (e.drop (p + l))
+      have := ih (takeNal (e.drop (p + l))).2
+      simp at ht ⊢
+      omega
 
 end Muxide.Props.C14
